@@ -247,6 +247,10 @@ type PartSetReader struct {
 }
 
 func NewPartSetReader(parts []*Part) *PartSetReader {
+	if len(parts) == 0 {
+		// a part set made from zero bytes of data is complete and reads as empty
+		return &PartSetReader{reader: bytes.NewReader(nil)}
+	}
 	return &PartSetReader{
 		i:      0,
 		parts:  parts,
